@@ -308,6 +308,8 @@ class Verifier:
             rep.outcomes[str(pe)] = rep.outcomes.get(str(pe), 0) + 1
             return
         rep.outcomes[outcome[0]] = rep.outcomes.get(outcome[0], 0) + 1
+        if c.ghost and outcome[0] == 'return':
+            c.ghost(eng, names)
         self.check_outcome(eng, fi, c, names, old, outcome, frm)
 
     def check_spawns(self, eng, q, tag):
@@ -416,7 +418,7 @@ class Verifier:
             raise OutOfSubset("generator verified as a plain function")
 
     def check_frame(self, eng, c, names, old, modifies, kind):
-        if '*' in modifies:
+        if '*' in modifies or 'world' in modifies:
             return
         # the locals of a generator are private to the process instance: not part of the frame
         priv = set((c.locals_types or {}).keys()) | {'_ytime', '_ydelay'}
